@@ -9,7 +9,9 @@ guard that excludes None (`if p is not None`, `if p`, the else-branch of
 iterates p, or after an unconditional re-binding of p.  Otherwise the call
 with the documented default raises AttributeError/TypeError instead of doing
 what the function documents - for the properties this means a valid request
-is rejected.
+is rejected.  Only the public functions and methods of the anchored files
+are judged: what a private helper or a nested function receives is decided
+by its callers.
 """
 from __future__ import annotations
 
@@ -193,9 +195,20 @@ def rule(ctx, files):
     for m in repo.modules.values():
         if m.relpath not in files:
             continue
+        classes = {n.name for n in m.tree.body
+                   if isinstance(n, ast.ClassDef)} if hasattr(
+                       m, "tree") else set()
         for q, fn in m.funcs.items():
             if getattr(fn, "_inlined_helper", False):
                 continue
+            last = q.rsplit(".", 1)[-1]
+            if last.startswith("_") and not (last.startswith("__")
+                                             and last.endswith("__")):
+                continue     # private: its callers decide what is passed
+            parts = q.split(".")
+            if len(parts) > 2 or (len(parts) == 2
+                                  and parts[0] not in classes):
+                continue     # nested helper
             k = check_function(ctx, m, q, fn)
             if k:
                 nf += 1
